@@ -26,6 +26,7 @@ import (
 	"log/slog"
 	"strings"
 	"sync"
+	"sync/atomic"
 	"time"
 )
 
@@ -51,6 +52,7 @@ type ManagedLock struct {
 	Name         string
 	lastAccessed time.Time
 	deleted      bool
+	users        atomic.Int32 // in-flight manager calls holding a reference to this lock
 	*Lock
 }
 
@@ -180,6 +182,7 @@ func (m *Manager) getLock(name string, create bool, size int32) (*ManagedLock, e
 
 		// Existing lock found
 		l.lastAccessed = time.Now()
+		l.users.Add(1)
 		return l, nil
 
 	} else if !create {
@@ -188,6 +191,7 @@ func (m *Manager) getLock(name string, create bool, size int32) (*ManagedLock, e
 	}
 
 	shard.locks[name] = NewManagedLock(name, m.ctx, size)
+	shard.locks[name].users.Add(1)
 	return shard.locks[name], nil
 }
 
@@ -205,6 +209,7 @@ func (m *Manager) Lock(name string, key string, size int32, ctx context.Context)
 	if err != nil {
 		return err
 	}
+	defer l.users.Add(-1)
 	if l.deleted {
 		panic(fmt.Sprintf("Tried to lock deleted lock %s", name))
 	}
@@ -224,6 +229,7 @@ func (m *Manager) TryLock(name string, key string, size int32) (bool, error) {
 	if err != nil {
 		return false, err
 	}
+	defer l.users.Add(-1)
 	if l.deleted {
 		panic(fmt.Sprintf("Tried to lock deleted lock %s", name))
 	}
@@ -246,6 +252,7 @@ func (m *Manager) Unlock(name string, key string) (bool, error) {
 	if l == nil {
 		return false, ErrLockDoesNotExist
 	}
+	defer l.users.Add(-1)
 	l.keyMtx.Lock()
 	if l.deleted {
 		l.keyMtx.Unlock()
@@ -267,7 +274,7 @@ func (m *Manager) lockGc(minIdle time.Duration) {
 
 		for _, v := range shard.locks {
 			v.lockKeys()
-			if len(v.keys) == 0 && time.Since(v.lastAccessed) > minIdle {
+			if len(v.keys) == 0 && v.users.Load() == 0 && time.Since(v.lastAccessed) > minIdle {
 				v.deleted = true
 				delete(shard.locks, v.Name)
 				numDeleted++
